@@ -9,7 +9,7 @@ TRUSTED = ["a fake device on 127.<pid>.<pid>.k:9957 / 10000 counts open connecti
 ASSUMPTIONS = ["'operation raises' is a state query answered with garbage (RuntimeError); 'refused' is a closed listening port"]
 RULE = ("action sequences over {connect (device listening / not), disconnect, operation (returns / raises on a garbage reply / raises because the device half-closed the stream at login), the wall clock jumping minutes to days ahead, async-with (listening / not, "
         "body returns / raises KeyError, TimeoutError, ConnectionResetError or is cancelled)} for both API classes: every sequence of length <= 3 (584 per class) and random ones of length 4..8 "
-        "(thorough: every sequence of length <= 4); after every action: connected flag, device-side open connections, EOFs seen; "
+        "(thorough: every sequence of length <= 4); every third sequence with each action in a task of its own; after every action: connected flag, device-side open connections, EOFs seen; "
         "non-trivial = distinct sequences with a successful connect")
 REQUIREMENT = ("connected is True exactly after a successful connect / inside the context and False after disconnect, leaving the context "
                "(also through an exception) or a refused connect from the disconnected state; after a disconnect the device holds no open "
@@ -79,7 +79,7 @@ async def act(api, cls, dev, k, f):
             if k == 7: raise asyncio.CancelledError()
 
 
-async def run_seq(cls, dev, acts, ip):
+async def run_seq(cls, dev, acts, ip, own_task=False):
     import time_machine, time
     api = cls(ip, "ab1c2d", "18"); out = ""; dev.open = 0; dev.eofs = 0; hung = False
     for k, f in acts:
@@ -90,11 +90,14 @@ async def run_seq(cls, dev, acts, ip):
         if hung: out += "never-returned|"; continue
         if (k, f) == (2, 3): o = "~"
         try:
-            await asyncio.wait_for(act(api, cls, dev, k, f), PATIENCE)
+            if own_task:           # every action in a task of its own (its own context copy), as when sessions are opened and closed by different parts of a program
+                await asyncio.wait_for(asyncio.ensure_future(act(api, cls, dev, k, f)), PATIENCE)
+            else:
+                await asyncio.wait_for(act(api, cls, dev, k, f), PATIENCE)
         except asyncio.TimeoutError as e:
             if k == 5 and "body timed out" in str(e): o = "!"
             else: hung = True; out += "never-returned|"; continue
-        except (OSError, RuntimeError, KeyError, asyncio.CancelledError): o = "!"
+        except (Exception, asyncio.CancelledError): o = "!"          # whatever is raised: the action raised; the state observed next is what counts
         await settle()
         if k == 0 or k >= 3: gc.collect(); await settle()
         out += ("C" if api.connected else "c") + "%d,%d" % (dev.open, dev.eofs) + o + "|"
@@ -164,7 +167,7 @@ def run_sequences(out, stream, cls, seqs):
         ip = world.loopback_ip(7); dev = Dev(ip, 9957 if cls is SwitcherType1Api else 10000); res = []; stuck = 0
         for s in seqs:
             if stuck >= 3: res.append(None); continue         # three sequences already ended in a call that never returns: enough to report
-            t = await asyncio.wait_for(run_seq(cls, dev, s, ip), 120); res.append(t)
+            t = await asyncio.wait_for(run_seq(cls, dev, s, ip, own_task=(len(res) % 3 == 1)), 120); res.append(t)
             if "never-returned" in t: stuck += 1
         await dev.listen(False)
         return res
@@ -200,6 +203,7 @@ def run(tier, rnd, out):
     seqs += [[a, b] for a in wide for b in wide] + [[rnd.choice(wide) for _ in range(rnd.randrange(3, 7))] for _ in range(60 if tier == "quick" else 1500)]
     seqs += [[(0, 1), (2, 2), a, b] for a in wide for b in alphabet[:5]]
     seqs += [[(0, 1), (2, 4), a, b] for a in alphabet for b in [(1, 0), (2, 0), (4, 1)]] + [[(3, 1), (0, 1), (2, 4), (2, 4), (1, 0)]]
+    seqs += [[(0, 0)] * n + [(0, 1), (2, 0), (1, 0)] for n in (4, 5, 6, 7, 9)] + [[(0, 0)] * 6 + [(3, 1)], [(3, 0)] * 6 + [(0, 1), (1, 0)]]       # many refusals in a row, then the device is back
     seqs += [[(0, 1), (1, 0), (2, 3), a] for a in alphabet] + [[(3, 1), (2, 3), a] for a in alphabet] + [[(0, 1), (2, 0), (1, 0), (2, 3), (2, 3), (0, 1), (2, 0), (1, 0)]]           # what follows a half-closed login, with and without a reconnect
     for cls in (SwitcherType1Api, SwitcherType2Api): run_sequences(out, "sequences", cls, seqs)
     out.exhaustive = True
